@@ -138,7 +138,7 @@ P     == ndJsonDeserialize(IOEnv.IDENT_PARAMS)[1]
    \* subset of it chosen by the seed (so a seed can never reach an input the thorough tier does not run).
    \* universe: utarget / ubigtarget = field faults per base (0 = all; bases above biglen bytes cost more per run),
    \*           a base with more is strided from index 0; bases of at most alllen bytes are never strided and get
-   \*           every truncation length; nflip flips per kind, nrand strings per class (both drawn by a rng that
+   \*           every truncation length; nflip flips per kind (the first flipk kinds), nrand strings per class (both drawn by a rng that
    \*           depends on the descriptor only); maxfaults = 1 (single faults) | 2 (pairs)
    \* subset:   qtarget / qbigtarget (0 = the whole universe), qalllen <= alllen, qflip <= nflip, qrand <= nrand,
    \*           psub (pairs: one of every psub), phase (= the seed); sel = sequence of base ids
@@ -190,7 +190,7 @@ TruncOps(b) == { Op("trunc", 0, l, 0, "-", 0, "-") : l \in {x \in TruncLens(b) :
 FlipKinds == << <<1, "tables">>, <<4, "head64">>, <<2, "tables">>, <<1, "head64">>, <<4, "tables">>, <<2, "head512">>,
                <<1, "any">>, <<4, "any">>, <<1, "head512">>, <<2, "head64">>, <<4, "head512">>, <<2, "any">> >>
 FlipOps(b) == { Op("flip", 0, FlipKinds[k][1], 0, FlipKinds[k][2], i, "-") :
-                  k \in 1..Len(FlipKinds), i \in Picked(P.nflip, P.qflip) }
+                  k \in 1..P.flipk, i \in Picked(P.nflip, P.qflip) }
 
 RandFlavours == {"bytes", "ascii", "hexrec", "srec", "magicELF32", "magicELF64", "magicMZ", "magicMachO32",
                  "magicMachO64", "magicFat", "coffish"}
